@@ -28,7 +28,10 @@ class TLCResult:
         self.cmd = ""
 
     def by_tag(self, tag):
-        return [r for r in self.records if isinstance(r, dict) and r.get("tag") == tag]
+        """records TLC printed with this tag, in a canonical order (TLC's workers print in a different order on every run; whatever is
+        sampled from the records with a seeded generator must not depend on that)"""
+        rs = [r for r in self.records if isinstance(r, dict) and r.get("tag") == tag]
+        return sorted(rs, key=lambda r: json.dumps(r, sort_keys=True))
 
 
 def _parse(out, res):
